@@ -237,8 +237,13 @@ class P(Property):
             'poll_finish of h3\'s own grease stream answering Pending (<id>:Z<n>) or the peer stopping it (<id>:S) while control frames '
             'arrive; blocked = h3 starved of uni credit during build, or its own control stream out of budget after the header / in the '
             'server\'s shutdown GOAWAY write, frames delivered meanwhile, grants at the end, then polls; after_none = server accept() '
-            'called again after it answered None, with further control frames in between. Liveness is demanded (spec columns must_fail / '
-            'stops / acted exact) only in settled states: phase run, h3 not write- or credit-blocked, last event a poll (two polls after '
+            'called again after it answered None, with further control frames in between; bigids = GOAWAY / CANCEL_PUSH / MAX_PUSH_ID '
+            'identifiers in 2^31..2^62-1 in legal non-increasing runs and with one increase (also mixed into the G/C/M alphabets of the '
+            'other families). A client case is driven through poll_close when its number of events is odd and through wait_idle().await '
+            'when even; a quarter of all cases hands every chunk to h3 as a non-contiguous Buf (SEG<n>). Which unknown-type streams get '
+            'STOP_SENDING, when and with which code is compared implementation-vs-model only; the oracle only refuses STOP_SENDING on a '
+            'stream that is not of unknown type. Liveness is demanded (spec columns must_fail / '
+            'acted exact) only in settled states: phase run, h3 not write- or credit-blocked, last event a poll (two polls after '
             '`ok none`); frames delivered while h3 is blocked in build or in shutdown(0) are delayed, not lost, and are checked after the '
             'unblocking grant. non-trivial = distinct cases in which the build completed and at least one chunk of a peer stream was delivered')
     partial_note = ('C04_exactly_once_partial and the T1/T2 theorems carry the premise d_res <> RIndet (runs in which the model\'s '
